@@ -20,6 +20,7 @@
 package c19
 
 import (
+	"crypto/sha1"
 	"encoding/base64"
 	"fmt"
 	"io"
@@ -57,7 +58,7 @@ func init() {
 	core.Register(&core.Prop{
 		ID:    "C19",
 		Level: "exploration",
-		Rule: "repository URL forms (scheme, port, explicit default port, host case, path, query) × chart URL forms as written in index.yaml (relative, absolute same origin, default-port / host-case respellings, other scheme / host / sub- / super-domain / suffix / prefix host / port / IP, userinfo, fragment and query tricks, scheme-relative, trailing dot, redirects of chart and index to an unrelated domain), with/without pass-credentials, optionally a second configured repository listing the same URL (credential-less on the chart's host, or with its own credentials and pass-credentials off on an unrelated host while the first repository / the caller has pass-credentials on); per pair the nonce credentials are configured for the repository and the pair runs through HTTPGetter.Get, ChartRepository.DownloadIndexFile, ChartDownloader.DownloadTo (repo/chart ref, absolute URL), ChartPathOptions.LocateChart --repo, action.Pull (--repo and repo/chart), Manager.Update and Manager.Build. " +
+		Rule: "repository URL forms (scheme, port, explicit default port, host case, path, query) × chart URL forms as written in index.yaml (relative, absolute same origin, default-port / host-case respellings, other scheme / host / sub- / super-domain / suffix / prefix host / port / IP, userinfo, fragment and query tricks, scheme-relative, trailing dot, redirects of chart and index to an unrelated domain), with/without pass-credentials, optionally a second configured repository listing the same URL (credential-less on the chart's host, or with its own credentials and pass-credentials off on an unrelated host while the first repository / the caller has pass-credentials on); per pair the nonce credentials are configured for the repository and the pair runs through HTTPGetter.Get, ChartRepository.DownloadIndexFile, ChartDownloader.DownloadTo (repo/chart ref, absolute URL), ChartPathOptions.LocateChart --repo, action.Pull (--repo and repo/chart), Manager.Update and Manager.Build; plus reuse sequences: ONE action.Pull run for five chart arguments in a row (repo/chart with credentials, an absolute URL no repository owns, a chart of a second credentialed repository, another unowned URL, the first repository again) and ONE Manager for Update, Build, Update. " +
 			"distinct_nontrivial counts (entry point, URL-difference class, pass-credentials, cross-origin request observed, credentials observed) tuples with at least one request captured.",
 		Assumptions: []string{
 			"net/http honours HTTP_PROXY/HTTPS_PROXY for the made-up host names, so the proxy sees every request helm sends (checked: per entry point the share of runs with captured requests)",
@@ -74,7 +75,7 @@ func init() {
 func genCases(seed int64, tier string) []core.Case {
 	ncases, per := 96, 16
 	if tier == "thorough" {
-		ncases, per = 2400, 25
+		ncases, per = 1200, 25
 	}
 	rng := rand.New(rand.NewSource(seed*32452843 + 19))
 	off := rng.Intn(1 << 20)
@@ -330,6 +331,10 @@ type exec struct {
 	keys   map[string]bool
 	verb   bool
 	anyReq bool
+	// seq2: during reuse sequences, the nonce password and origin of the sequence's second
+	// credentialed repository (pass-credentials off)
+	seq2Pass string
+	seq2O    origin
 }
 
 func run(c core.Case, verbose bool) core.Result {
@@ -445,6 +450,14 @@ func (x *exec) step(ep string, f func() error) {
 				res.Add("credentials-sent-to-foreign-origin", fmt.Sprintf("%s · credentials of a second configured repository (pass-credentials off) sent to another origin · %s request", ep, reqKind(r)),
 					"%s %s carried the credentials of the second repository; request origin %s, that repository's origin %s | %s | entry point %s returned err=%v",
 					r.Method, r.URL(), o, mo, x.describe(), ep, err)
+			}
+		}
+		if x.seq2Pass != "" && carries(r.Auth, x.seq2Pass) {
+			res.Stat("requests_with_second_repository_credentials", 1)
+			if !ok || o != x.seq2O {
+				res.Add("credentials-sent-to-foreign-origin", fmt.Sprintf("%s · credentials of the sequence's second repository (pass-credentials off) sent to another origin · %s request", ep, reqKind(r)),
+					"%s %s carried the credentials of the second repository; request origin %s, that repository's origin %s | %s | entry point %s returned err=%v",
+					r.Method, r.URL(), o, x.seq2O, x.describe(), ep, err)
 			}
 		}
 		if has && foreign {
@@ -701,6 +714,55 @@ func (x *exec) runPair(chartArchive []byte) {
 	}
 	x.step("Manager.Update", func() error { return mk().Update() })
 	x.step("Manager.Build", func() error { return mk().Build() })
+
+	// ---- E7 one object reused for several charts in a row (`helm pull a b c` keeps one action.Pull):
+	// repo/chart of the credentialed repository, an absolute URL no configured repository owns, a chart
+	// of a second credentialed repository, another unowned URL, the first repository again. Every
+	// credential set stays scoped to its own repository's origin.
+	seqDir := filepath.Join(x.dir, "seq")
+	seqCache := filepath.Join(seqDir, "cache")
+	os.MkdirAll(seqCache, 0o755)
+	second := &repo.Entry{Name: "second", URL: ru.Scheme + "://second.corp.test/charts", Username: "seq2user", Password: fmt.Sprintf("seq2pw-%x-secret", sha1.Sum([]byte(ps.Pass)))[:30], CAFile: x.ca}
+	sf := repo.NewFile()
+	sf.Add(entry, second)
+	seqCfg := filepath.Join(seqDir, "repositories.yaml")
+	sf.WriteFile(seqCfg, 0o644)
+	os.WriteFile(filepath.Join(seqCache, "myrepo-index.yaml"), pl.index, 0o644)
+	idx2, _ := yaml.Marshal(map[string]any{"apiVersion": "v1", "generated": "2024-01-02T03:04:05Z",
+		"entries": map[string]any{"dep": []any{map[string]any{"name": "dep", "version": "0.9.0", "apiVersion": "v2", "urls": []any{"dep-0.9.0.tgz"}}}}})
+	os.WriteFile(filepath.Join(seqCache, "second-index.yaml"), idx2, 0o644)
+	x.seq2Pass = second.Password
+	x.seq2O, _ = originOfURL(second.URL)
+	defer func() { x.seq2Pass = "" }()
+	type call struct{ label, ref, version string }
+	calls := []call{
+		{"1st call repo/chart", "myrepo/dep", "1.0.0"},
+		{"2nd call unowned absolute url", ru.Scheme + "://files.unowned.test/pub/other-2.0.0.tgz", ""},
+		{"3rd call repo/chart of a second credentialed repository", "second/dep", "0.9.0"},
+		{"4th call unowned absolute url", flipScheme(ru.Scheme) + "://cdn.elsewhere.test/x/thing-3.0.0.tgz", ""},
+		{"5th call repo/chart of the first repository", "myrepo/dep", "0.9.0"},
+	}
+	seqSettings := &cli.EnvSettings{PluginsDirectory: filepath.Join(x.dir, "plugins"), RepositoryConfig: seqCfg, RepositoryCache: seqCache, RegistryConfig: filepath.Join(x.dir, "registry.json")}
+	pull := action.NewPull(action.WithConfig(&action.Configuration{}))
+	pull.Settings = seqSettings
+	pull.CaFile = x.ca
+	pull.VerifyLater = true
+	pull.DestDir = filepath.Join(seqDir, "pulled")
+	os.MkdirAll(pull.DestDir, 0o755)
+	for _, cl := range calls {
+		x.step("one action.Pull reused · "+cl.label, func() error {
+			pull.Version = cl.version
+			_, err := pull.Run(cl.ref)
+			return err
+		})
+	}
+	// (One ChartDownloader value reused for several DownloadTo calls is deliberately not part of the
+	// check: DownloadTo/ResolveChartVersion append to c.Options by design, no helm entry point reuses
+	// a downloader — Pull.Run, LocateChart and Manager.downloadAll build a fresh one per chart.)
+	mgr := mk()
+	for i, f := range []func() error{mgr.Update, mgr.Build, mgr.Update} {
+		x.step(fmt.Sprintf("one Manager reused · call %d", i+1), f)
+	}
 }
 
 func firstErr(es ...error) error {
